@@ -13,9 +13,10 @@ DRIVERS = [
     ("routing_driver", "ExtractRouting.v", "routing_model.ml", "routing_driver.ml"),
     ("tls_driver", "ExtractTls.v", "tls_model.ml", "tls_driver.ml"),
     ("policy_driver", "ExtractPolicy.v", "policy_model.ml", "policy_driver.ml"),
+    ("bimap_driver", "ExtractBimap.v", "bimap_model.ml", "bimap_driver.ml"),
     ("observer_driver", "ExtractObserver.v", "observer_model.ml", "observer_driver.ml"),
 ]
-GO_PKGS = ["proxy", "encryption"]
+GO_PKGS = ["proxy", "encryption", "interceptor", "collect"]
 
 
 def main():
